@@ -53,6 +53,23 @@ static spec_sponge R_cxof(const char *name, const unsigned char *custom, size_t 
     return h;
 }
 
+
+#if defined(OP_pbkdf2)
+/* C13 (stack temporaries of the one-shot): ascon-pbkdf2.c is compiled with ascon_xof_init_custom / ascon_xof_copy /
+ * ascon_xof_free / ascon_clean renamed to these ghost wrappers, which keep the set of XOF state objects that hold
+ * password-derived data and count the non-elidable wipes, then call the real functions. */
+static size_t verif_live[4]; static unsigned verif_nlive, verif_clean_calls, verif_clean_partial;
+static void live_add(const void *p) { size_t id = __CPROVER_POINTER_OBJECT(p); unsigned i; for (i = 0; i < 4; ++i) if (i < verif_nlive && verif_live[i] == id) return; if (verif_nlive < 4) verif_live[verif_nlive] = id; verif_nlive++; }
+static void live_del(const void *p) { size_t id = __CPROVER_POINTER_OBJECT(p); unsigned i; for (i = 0; i < 4; ++i) if (i < verif_nlive && verif_live[i] == id) { verif_live[i] = verif_live[verif_nlive - 1]; verif_nlive--; return; } }
+void verif_ghost_xof_init_custom(ascon_xof_state_t *state, const char *fn, const unsigned char *custom, size_t customlen, size_t outlen)
+{ live_add(state); ascon_xof_init_custom(state, fn, custom, customlen, outlen); }
+void verif_ghost_xof_copy(ascon_xof_state_t *dest, const ascon_xof_state_t *src) { live_add(dest); ascon_xof_copy(dest, src); }
+void verif_ghost_xof_free(ascon_xof_state_t *state) { live_del(state); ascon_xof_free(state); }
+void ascon_clean(void *buf, unsigned size);
+void verif_ghost_clean(void *buf, unsigned size)
+{ verif_clean_calls++; if (__CPROVER_POINTER_OFFSET(buf) != 0 || __CPROVER_OBJECT_SIZE(buf) != size) verif_clean_partial = 1; ascon_clean(buf, size); }
+#endif
+
 #ifndef L1
 #define L1 5
 #endif
@@ -106,7 +123,10 @@ void h_cxof_kdf(void)
             for (c = 1; c < cnt; ++c) { h = base; R_absorb(&h, u, 32); h = spec_sponge_squeeze_v(&PP, h, u, 32); for (i = 0; i < 32; ++i) t[i] ^= u[i]; }
             for (i = 0; i < 32 && o < VERIF_OUTLEN; ++i) exp[o++] = t[i];        /* last block truncated */
         }
+        verif_nlive = 0; verif_clean_calls = 0; verif_clean_partial = 0;
         ascon_pbkdf2(out, VERIF_OUTLEN, a, alen, b, blen, VERIF_COUNT);
+        __CPROVER_assert(verif_nlive == 0, "C13: every XOF state that held password-derived data was freed before return, on every path");
+        __CPROVER_assert(verif_clean_calls == 1 + ((VERIF_OUTLEN % 32) != 0) && !verif_clean_partial, "C13: the U buffer (and T for a partial last block) are wiped whole with the non-elidable ascon_clean");
         for (i = 0; i < VERIF_OUTLEN; ++i) __CPROVER_assert(out[i] == exp[i], "PBKDF2: T_i = U_1 xor ... xor U_c over the customised-XOF PRF, block index big-endian from 1, last block truncated, count 0 treated as 1");
     }
 #endif
